@@ -9,11 +9,25 @@ import sys
 import time
 
 VERIF = os.path.dirname(os.path.dirname(os.path.abspath(__file__)))
-MODULES = ["contracts.c04_periods", "contracts.engine", "contracts.c03_requests", "contracts.c06_parameters", "contracts.c16_set_input", "contracts.c13_clone"]
+MODULES = ["contracts.c04_periods", "contracts.engine", "contracts.c03_requests", "contracts.c06_parameters", "contracts.c16_set_input", "contracts.c13_clone", "contracts.c14_reforms"]
 
 CAL_THEORY = "calendar (OM/DIM opaque, lemma instances; closed forms = Hinnant days-from-civil), validated against datetime"
 
 PROPS = {
+    "C14": {
+        "theories": ["heap model with concrete identities; frame = snapshot of every object reachable from the base system"],
+        "lemmas": [],
+        "validations": [],
+        "assumptions": [
+            "copy.copy / copy.deepcopy: fresh, structurally equal, disjoint from the original (assumed contract of the standard library)",
+            "sortedcontainers.SortedDict iterates in key order (assumed, concrete string keys)",
+            "heap shape: a base system with two entities, three variables (one with two dated formulas) and a two-level parameter tree",
+            "formulas and parameter modifiers are opaque callables; a modifier may edit the tree it is handed in place",
+        ],
+        "not_decided": ["calculations on base and derived systems (follow from untouched definitions + C01)",
+                        "test_runner._get_tax_benefit_system (clones the baseline per reform combination: covered through TaxBenefitSystem.clone)",
+                        "Variable.__init__ as a whole (its attribute rule Variable.set and formula rule set_formulas are under contract)"],
+    },
     "C13": {
         "theories": ["heap model: objects with concrete identity and symbolic contents; ownership declaration of DESIGN 4 C13"],
         "lemmas": [],
